@@ -503,7 +503,19 @@ func (c *Ctx) mrScan(l *mrLoop, info *types.Info, body ast.Node, t *taint, local
 					if isFloat(ltype) {
 						add(s.Pos(), "S3", "floating-point accumulation into `"+types.ExprString(lh)+"` in map order (float addition is not associative)")
 					}
-					continue // integer / string? (string += is order dependent)
+					if bt, isB := ltype.Underlying().(*types.Basic); isB && bt.Info()&types.IsString != 0 && s.Tok == token.ADD_ASSIGN {
+						// text built by concatenation: the pieces appear in map order
+						if lid := baseIdent(lh); lid != nil {
+							lobj := info.Uses[lid]
+							if lobj == nil {
+								lobj = info.Defs[lid]
+							}
+							if lobj != nil && !locals[lobj] {
+								add(s.Pos(), "S3", "text appended to `"+types.ExprString(lh)+"` in map order: the pieces of the result are ordered like the iteration")
+							}
+						}
+					}
+					continue // integer accumulation
 				}
 				if isErrorType(ltype) {
 					continue
